@@ -45,7 +45,7 @@ def classify(e):
         return "ifeval:unsigned-as-signed"
     if (e[0] == "3" or (e[0] == "2" and e[1] in ("&&", "||"))) and ("/" in sk or "%" in sk):
         return "ifeval:division-in-unevaluated-operand"
-    if e[0] == "1":
+    if e[0] == "1" or re.search(r"[!~+\-]\([!~+\-]\(", sk):      # a unary operator applied to a unary result, anywhere
         return "ifeval:constFoldUnaryNotPosNeg"
     if e[0] == "2" and e[1] == "||" and e[3][0] == "2" and e[3][1] == "&&":
         return "ifeval:constFoldLogicalOp"
@@ -160,6 +160,107 @@ def three_way(tmp, name, src, defs=()):
 
 def expr_src(e):
     return "#if %s\nL1;\n#else\nL0;\n#endif\n" % b" ".join(P.print_expr(0, e)).decode()
+
+
+MACRO_WITNESS = [
+    ("macro:stringize-escapes-apostrophe", ["#define S(x) #x"], "S('a')"),
+    ("macro:stringize-whitespace", ["#define S(x) #x"], 'S(== "a")'),
+    ("macro:paste-multi-token-argument-not-rescanned", ["#define S(x) #x", "#define C(a,b) x ## a b"], "C(1 S(q), 2)"),
+    ("macro:empty-va-args-comma", ["#define F(p, ...) G(p, __VA_ARGS__, __VA_ARGS__)"], "F(1)"),
+    ("macro:dot-number-merged", ["#define D(a) a"], "D(x . 42)"),
+]
+
+
+def both_E(tmp, name, src):
+    p = os.path.join(tmp, name)
+    with open(p, "w") as fh:
+        fh.write(src)
+    rc, out, err = run_cmd([vlib.CPPCHECK, "-E", "--max-configs=1", "-q", p])
+    c = None if ("error:" in err or "error:" in out) else out
+    rc, out, err = run_cmd(["gcc", "-E", "-undef", "-nostdinc", "-P", "-x", "c", p])
+    g = None if rc != 0 else out
+    os.remove(p)
+    return c, g
+
+
+def macro_compare(ct, gt):
+    if ct == gt:
+        return "same"
+    if P.norm_apos(ct) == gt:
+        return "apostrophe-escaped"
+    if P.norm_ws(ct) == P.norm_ws(gt):
+        return "stringize-whitespace"
+    # an escaped apostrophe that is stringized again (\\\' in the result): compare without backslashes
+    if any("\\\\\\'" in t for t in ct if t.endswith('"')):
+        strip = lambda ts: [re.sub(r"[\\\\ \t]+", "", t) if t.endswith('"') and len(t) > 1 else t for t in ts]
+        if strip(ct) == strip(gt):
+            return "apostrophe-escaped (stringized twice)"
+    return "DIFF"
+
+
+def macro_stream(run, tmp, quick):
+    rng = run.rng
+    # known deviations: fixed witnesses, replayed against gcc on every run
+    for key, defs, use in MACRO_WITNESS:
+        c, g = both_E(tmp, "w.c", P.macro_source(defs, [use]))
+        ct = P.split_uses(c, 1) if c is not None else None
+        gt = P.split_uses(g, 1) if g is not None else None
+        if gt is not None and (ct is None or ct != gt):
+            run.violation(key, "%s / %s : cppcheck -E `%s`, gcc -E `%s`" % ("; ".join(defs), use, " ".join(ct[0]) if ct else "error", " ".join(gt[0])),
+                          {"source": P.macro_source(defs, [use]), "cppcheck_E": ct, "gcc_E": gt,
+                           "how": "cppcheck -E --max-configs=1 t.c  vs  gcc -E -undef -nostdinc -P t.c"})
+    nfiles = 150 if quick else 4000
+    files = [P.gen_macro_file(rng) for _ in range(nfiles)]
+
+    def job(idf):
+        i, (defs, uses) = idf
+        c, g = both_E(tmp, "f%d.c" % i, P.macro_source(defs, uses))
+        ct = P.split_uses(c, len(uses)) if c is not None else None
+        gt = P.split_uses(g, len(uses)) if g is not None else None
+        res = []
+        if ct is not None and gt is not None:
+            return [(u, a, b) for u, a, b in zip(uses, ct, gt)]
+        for k, u in enumerate(uses):             # localise: one use per file
+            c, g = both_E(tmp, "f%d_%d.c" % (i, k), P.macro_source(defs, [u]))
+            a = P.split_uses(c, 1) if c is not None else None
+            b = P.split_uses(g, 1) if g is not None else None
+            res.append((u, a[0] if a else None, b[0] if b else None))
+        return res
+    with concurrent.futures.ThreadPoolExecutor(max_workers=6) as ex:
+        outs = list(ex.map(job, enumerate(files)))
+    nbad = 0
+    for (defs, uses), res in zip(files, outs):
+        for u, a, b in res:
+            if b is None:
+                run.count("macro", None, bucket="gcc rejects (not judged)")
+                continue
+            cls = "cppcheck error" if a is None else macro_compare(a, b)
+            feats = "".join(x for x, y in (("#", " #" in " ".join(defs) or "#p" in " ".join(defs)), ("P", "##" in " ".join(defs)), ("V", "__VA_ARGS__" in " ".join(defs)),
+                                            ("L", bool(re.search(r"(?:u8|u|U|L)[\"']", u)))) if y)
+            run.count("macro", None, nontrivial=(tuple(defs), u) if "(" in u else None, bucket="%s [%s]" % (cls, feats))
+            if cls in ("DIFF", "cppcheck error"):
+                nbad += 1
+                run.stream("macro")["disagreements"] += 1
+                if nbad > 4:
+                    continue
+                # drop definitions that are not needed for the difference
+                keep = list(defs)
+                for d in list(defs):
+                    trial = [x for x in keep if x != d]
+                    c, g = both_E(tmp, "s.c", P.macro_source(trial, [u]))
+                    ta = P.split_uses(c, 1) if c is not None else None
+                    tb = P.split_uses(g, 1) if g is not None else None
+                    if tb is not None and (ta is None or macro_compare(ta[0], tb[0]) == "DIFF"):
+                        keep = trial
+                src = P.macro_source(keep, [u])
+                c, g = both_E(tmp, "s.c", src)
+                ta = P.split_uses(c, 1) if c is not None else None
+                tb = P.split_uses(g, 1) if g is not None else None
+                run.violation("macro:" + hashlib.sha1(src.encode()).hexdigest()[:12],
+                              "macro expansion: cppcheck -E `%s` != gcc -E `%s` for %s" % (" ".join(ta[0]) if ta else "error", " ".join(tb[0]) if tb else "?", u[:80]),
+                              {"source": src, "cppcheck_E": ta, "gcc_E": tb, "how": "cppcheck -E --max-configs=1 t.c  vs  gcc -E -undef -nostdinc -P t.c"})
+    if len(run.samples) < 12 and files:
+        run.samples.append({"stream": "macro", "source": P.macro_source(files[0][0], files[0][1])})
 
 
 def check(run, replay):
@@ -325,6 +426,9 @@ def check(run, replay):
         elif key in causes:
             run.violation("ifxspec:" + key, "#if %s: simplecpp deviates from the model's C semantics but gcc agrees with cppcheck" % text,
                           {"source": src, "cppcheck_E": cc, "gcc_E": g}, found_input=False)
+
+    # ---- stream M: macro expansion, differential only (no model): cppcheck -E vs gcc -E, token by token
+    macro_stream(run, tmp, quick)
 
     # ---- stream 3: cppcheck -E and gcc -E on a sample (3-way with the model)
     n = 60 if quick else 1500
